@@ -421,7 +421,151 @@ def S7(ctx):
     ctx.floor("S7", n, 4, "mutex 1 + rwlock 2 + mpsc 1 release functions")
 
 
+# ---- D1 / D2: deadlock assertion and blocking conditions -------------------------------------------
+
+def D1(ctx):
+    """The deadlock panic in Execution::schedule is raised exactly under !is_active() && !(all terminated), after set_active."""
+    prog = ctx.prog
+    k = EXEC + "::schedule"
+    fn = need_fn(ctx, "D1", k)
+    if fn is None:
+        return
+    body = fn.body
+    ps = panic_sites(prog, k, "deadlock; threads = ")
+    if not ps:
+        ctx.bad("D1", k, "the documented deadlock panic (\"deadlock; threads = ...\") is no longer raised by schedule()", fn.loc(), detail="missing")
+        return
+    ctx.touch(k, len(ps))
+    inst = prog.ident(k)
+    ea = EventAnalysis(prog, path_matcher({"set_active": "rt::thread::Set::set_active",
+                                           "branch_thread": "rt::path::Path::branch_thread"}),
+                       stop=lambda i: prog.insts[i].key != k).solve([inst])
+    IN, OUT = ea.block_out(inst)
+    for (b, msg) in ps:
+        g_active = unreachable_if(body, b, assume_calls({"rt::thread::Set::is_active": True}))
+        r_inactive = not unreachable_if(body, b, assume_calls({"rt::thread::Set::is_active": False}))
+        g_term = unreachable_if(body, b, assume_calls({"std::iter::Iterator::all": True}))
+        r_term = not unreachable_if(body, b, assume_calls({"std::iter::Iterator::all": False, "rt::thread::Set::is_active": False}))
+        after = IN.get(b) is not TOP and "set_active" in (IN.get(b) or ())
+        if g_active and r_inactive and g_term and r_term and after:
+            ctx.ok("D1", k, "deadlock panic iff no thread is active and not all threads terminated, after set_active(next)",
+                   [site_str(prog, k, b)])
+        else:
+            ctx.bad("D1", k, "deadlock panic condition changed: guarded by is_active()=%s, reachable when inactive=%s, suppressed when all "
+                    "terminated=%s, reachable otherwise=%s, after set_active=%s" % (g_active, r_inactive, g_term, r_term, after),
+                    site_str(prog, k, b), detail="condition")
+    # the `all` closure tests termination
+    cl = [c for c in prog.closures_of(k)]
+    ok = False
+    for c in cl:
+        ci = prog.ident(c)
+        for (b, t, cal) in prog.sites(ci):
+            if prog.callee_key(cal) == T + "::is_terminated":
+                ok = True
+    if ok:
+        ctx.ok("D1", k + ":terminal", "termination test uses Thread::is_terminated", [fn.loc()])
+    else:
+        ctx.bad("D1", k, "the all-threads-terminated test does not use Thread::is_terminated", fn.loc(), detail="terminal")
+    # after an inactive result schedule returns without touching the (absent) active thread
+    acc = {"rt::thread::Set::active", "rt::thread::Set::active_mut", "rt::thread::Set::active_id"}
+
+
+D2_ROWS = [
+    # (function, branching call, arg index of the blocking condition, calls that must feed it, constants allowed)
+    ("rt::mutex::Mutex::acquire_lock", "rt::object::Ref::<T>::branch_acquire", 1, {"rt::mutex::Mutex::is_locked"}),
+    ("rt::rwlock::RwLock::acquire_read_lock", "rt::object::Ref::<T>::branch_disable", 2, {"rt::rwlock::RwLock::is_write_locked"}),
+    ("rt::rwlock::RwLock::acquire_write_lock", "rt::object::Ref::<T>::branch_disable", 2,
+     {"rt::rwlock::RwLock::is_write_locked", "rt::rwlock::RwLock::is_read_locked"}),
+    ("rt::mpsc::Channel::recv", "rt::object::Ref::<T>::branch_disable", 2, {"rt::mpsc::Channel::is_empty"}),
+]
+
+STATE_PREDICATES = {
+    # predicate fn -> (State adt, field, variants that must all be tested for `true`)
+    "rt::mutex::Mutex::is_locked": ("rt::mutex::State", "lock", None),
+    "rt::rwlock::RwLock::is_write_locked": ("rt::rwlock::State", "lock", ["Some", "Write"]),
+    "rt::rwlock::RwLock::is_read_locked": ("rt::rwlock::State", "lock", ["Some", "Read"]),
+    "rt::mpsc::Channel::is_empty": ("rt::mpsc::State", "msg_cnt", None),
+}
+
+
+def D2(ctx):
+    """The blocking condition handed to the branch is derived from the object's own state."""
+    prog = ctx.prog
+    n = 0
+    for (fk, br, ai, want) in D2_ROWS:
+        fn = need_fn(ctx, "D2", fk)
+        if fn is None:
+            continue
+        inst = prog.ident(fk)
+        sites = [(b, t) for (b, t, c) in prog.sites(inst) if prog.callee_key(c) == br]
+        if not sites:
+            ctx.bad("D2", fk, "%s no longer blocks through %s" % (fk, br), fn.loc(), detail="no-branch")
+            continue
+        for (b, t) in sites:
+            n += 1
+            calls, consts = feeding_calls(fn.body, t["args"][ai])
+            extra_const = consts - {1}   # `a || b` contributes the literal true
+            if want <= calls and not (calls - want - {"std::ops::Not::not"}) and not extra_const:
+                ctx.ok("D2", fk, "blocks iff %s" % " || ".join(sorted(x.split("::")[-1] for x in want)), [site_str(prog, fk, b)])
+            else:
+                ctx.bad("D2", fk, "blocking condition of %s is derived from %s (constants %s), expected exactly %s" %
+                        (fk, sorted(calls), sorted(consts), sorted(want)), site_str(prog, fk, b), detail="condition")
+    # notify: blocks iff !notified
+    fk = "rt::notify::Notify::wait"
+    fn = need_fn(ctx, "D2", fk)
+    if fn is not None:
+        inst = prog.ident(fk)
+        for (b, t, c) in prog.sites(inst):
+            if prog.callee_key(c) == "rt::object::Ref::<T>::branch_acquire":
+                n += 1
+                atoms = guard_atoms(fn.body, b)
+                cond = [(canon(e), pol) for (e, pol, v, sb) in atoms]
+                arg = fn.body.expr_of_operand(t["args"][1])
+                is_true = arg[0] == "const" and arg[1].get("int") == 1
+                notif = [1 for (e, pol, v, sb) in atoms if pol is False and e[0] == "field" and e[2] == "0" and
+                         mentions_call(e, "rt::execution")]
+                if is_true and notif:
+                    ctx.ok("D2", fk, "blocks iff the notification flag read under the execution is false", [site_str(prog, fk, b)])
+                else:
+                    ctx.bad("D2", fk, "Notify::wait blocks under %s with condition %s; expected: unconditionally when `notified` is false" %
+                            (cond, canon(arg)), site_str(prog, fk, b), detail="condition")
+    # the predicates read the object's own state field
+    for pk, (adt, field, variants) in STATE_PREDICATES.items():
+        ck = pk + "::{closure#0}"
+        fn = need_fn(ctx, "D2", ck)
+        if fn is None:
+            continue
+        n += 1
+        body = fn.body
+        # return expression / true-conditions mention the field
+        hit = False
+        seen_variants = set()
+        for b, blk in enumerate(body.blocks):
+            for s in blk["stmts"]:
+                if s["k"] == "=" and s["lhs"]["l"] == 0 and not s["lhs"]["p"]:
+                    e = body.expr_of_rvalue(s["rv"])
+                    if mentions_field(e, adt, field):
+                        hit = True
+                    for (ge, pol, val, sb) in guard_atoms(body, b):
+                        if mentions_field(ge, adt, field):
+                            hit = True
+                            if ge[0] == "discr" and is_const_bool(e, True):
+                                v = variant_of_discr_value(prog, ge, val) if not isinstance(val, tuple) else None
+                                if v:
+                                    seen_variants.add(v)
+            t = body.term(b)
+            if t["k"] == "call" and t["dest"]["l"] == 0:
+                if any(mentions_field(body.expr_of_operand(a), adt, field) for a in t["args"]):
+                    hit = True
+        if hit and (variants is None or set(variants) <= seen_variants):
+            ctx.ok("D2", pk, "reads %s.%s%s" % (adt, field, "" if not variants else " == " + "::".join(variants)), [fn.loc()])
+        else:
+            ctx.bad("D2", pk, "%s does not (only) test %s.%s%s (saw %s)" % (pk, adt, field, "" if not variants else " for " + "::".join(variants),
+                                                                           sorted(seen_variants)), fn.loc(), detail="predicate")
+    ctx.floor("D2", n, 9, "4 blocking calls + notify + 4 state predicates")
+
+
 def run_all(ctx, which):
-    table = dict(S1=S1, S2=S2, S3=S3, S4=S4, S5=S5, S6=S6, S7=S7, S8=S8)
+    table = dict(S1=S1, S2=S2, S3=S3, S4=S4, S5=S5, S6=S6, S7=S7, S8=S8, D1=D1, D2=D2)
     for w in which:
         table[w](ctx)
